@@ -66,7 +66,19 @@ VTxIv(ev) ==
                /\ [i \in DOMAIN Bases(o[2]) |-> Rel2Par(sys, Bases(o[2])[i])]
                     = SelectSeq(Bases(<< <<<<a, b>>>>, rs >>), LAMBDA p : p \in PosSet(sys)), "chr-interval-to-relative")])
 
-Verdict(ev) == CASE ev[1] = "tx" -> VTx(ev) [] ev[1] = "txiv" -> VTxIv(ev) [] OTHER -> "unknown-op"
+(* ["m1", exons, cds|EMPTY, kind, p, outcome] : one position conversion observed in the repository's own test-suite
+   (passive trace; coordinates re-based to the transcript start) *)
+VM1(ev) ==
+  LET ex == ev[2] cds == ev[3] kind == ev[4] p == ev[5] o == ev[6]
+      sys == IF kind \in {"s2t", "t2s"} THEN ex ELSE cds IN
+  IF IsEmptyLoc(sys) THEN Ok(Rejected(o), "noncoding-rejects-cds-calls")
+  ELSE IF kind \in {"s2t", "s2c"} THEN
+     (IF p \in PosSet(sys) THEN Ok(IsVal(o) /\ o[2] = Min(Par2RelSet(sys, p)), "chr-to-relative")
+      ELSE Ok(Rejected(o), "chr-to-relative:rejects"))
+  ELSE (IF 0 <= p /\ p < LenLoc(sys) THEN Ok(IsVal(o) /\ o[2] = Rel2Par(sys, p), "relative-to-chr")
+        ELSE Ok(Rejected(o), "relative-to-chr:rejects"))
+
+Verdict(ev) == CASE ev[1] = "m1" -> VM1(ev) [] ev[1] = "tx" -> VTx(ev) [] ev[1] = "txiv" -> VTxIv(ev) [] OTHER -> "unknown-op"
 Bad == {i \in DOMAIN Trace : Verdict(Trace[i]) # "ok"}
 ASSUME \A i \in Bad : PrintT(<<"BAD", i, Verdict(Trace[i])>>)
 ASSUME PrintT(<<"DONE", Len(Trace), Cardinality(Bad)>>)
